@@ -128,6 +128,10 @@ func Known(id string, cond bool, msg string) {
 
 func NondetMapOrder(on bool) {}
 
+// NondetMapOrderBudget: at most k map ranges per path iterate in a perturbed order (engine only;
+// natively Go randomises every range anyway).
+func NondetMapOrderBudget(k int) {}
+
 // Symbolic reports whether the code runs under the symbolic executor.
 func Symbolic() bool { return false }
 
